@@ -7,7 +7,7 @@ CFG = dict(
           "of an envelope addressed to the call, routed to it and taken by it) in coq/Props/C13.v, over all label sequences of "
           "coq/Model/Client.v; the model is run lock-step against the real client (with and without stats handler) on every run.",
     props="Props/C13.v",
-    theorems=["C13_total", "C13_settles", "C13_honest", "C13_done_has_error"],
+    theorems=["C13_total", "C13_settles", "C13_honest", "C13_done_has_error", "C13_no_crash"],
     imports=["Model.Client", "Check.ClientC", "Check.ClientSpec", "Check.C13c"],
     case_type="c13case",
     find_bad_from="Check.C13c.find_bad_from",
